@@ -157,3 +157,68 @@ elif which=='allbytes-minmax':
     sub('trie/trie.go','\tif t.leaf {\n\t\treturn longest, res\n\t}','\tif t.leaf || t.min > t.max {\n\t\treturn longest, res\n\t}')
 elif which=='release-named':
     sub('eval/eval.go','defer s.env.ReleaseRegister(register)','env := s.env\n\t\tdefer env.ReleaseRegister(register)')
+elif which=='append-indexloop':
+    sub('object/object.go','''	res.kv = append(res.kv, m.kv...)
+	for _, kv := range right.mapElements() {
+		res.Set(kv.Key, kv.Value)
+	}''','''	res.kv = append(res.kv, m.kv...)
+	elems := right.mapElements()
+	for i := 0; i < len(elems); i++ {
+		res.Set(elems[i].Key, elems[i].Value)
+	}''')
+elif which=='smallmap-rest-var':
+    sub('object/object.go','''	res := SmallMap{len: m.len - 1}
+	copy(res.smallKV[:m.len-1], m.smallKV[1:m.len])''','''	n := m.len - 1
+	res := SmallMap{len: n}
+	copy(res.smallKV[:n], m.smallKV[1:m.len])''')
+elif which=='smallmap-delete-copy':
+    sub('object/object.go','''	for i := where; i < m.len-1; i++ {
+		m.smallKV[i] = m.smallKV[i+1]
+	}
+	m.len--''','''	copy(m.smallKV[where:m.len-1], m.smallKV[where+1:m.len])
+	m.len--''')
+elif which=='ident-switch':
+    sub('eval/eval.go','''	if nv.Type() != token.IDENT {
+		return s.NewError("can't prefix increment/decrement " + nv.DebugString())
+	}''','''	switch nv.Type() {
+	case token.IDENT:
+	default:
+		return s.NewError("can't prefix increment/decrement " + nv.DebugString())
+	}''')
+elif which=='ident-var':
+    sub('eval/eval.go','''	if idxE.Left.Value().Type() != token.IDENT {
+		return s.NewError("delete index on non identifier: " + idxE.Left.Value().DebugString())
+	}
+	id := idxE.Left.Value().Literal()''','''	left := idxE.Left.Value()
+	if lt := left.Type(); lt != token.IDENT {
+		return s.NewError("delete index on non identifier: " + left.DebugString())
+	}
+	id := left.Literal()''')
+elif which=='set-precheck':
+    sub('object/object.go','''	m.len++
+	if m.len > MaxSmallMap {
+		// We need to switch to a big map.
+		res := &BigMap{kv: make([]keyValuePair, 0, m.len)}
+		res.kv = append(res.kv, m.smallKV[:i]...)
+		res.kv = append(res.kv, keyValuePair{Key: key, Value: value})
+		res.kv = append(res.kv, m.smallKV[i:m.len-1]...)
+		return res
+	}''','''	if m.len >= MaxSmallMap {
+		// We need to switch to a big map.
+		res := &BigMap{kv: make([]keyValuePair, 0, m.len+1)}
+		res.kv = append(res.kv, m.smallKV[:i]...)
+		res.kv = append(res.kv, keyValuePair{Key: key, Value: value})
+		res.kv = append(res.kv, m.smallKV[i:m.len]...)
+		return res
+	}
+	m.len++''')
+elif which=='resume-helper':
+    sub('extensions/shell.go','''			defer func() { s.Context, s.Cancel = s.Term.Resume(context.Background()) }()''','''			defer resumeTerm(s)''')
+    sub('extensions/shell.go','''func createShellFunctions() {''','''func resumeTerm(s *eval.State) {
+	s.Context, s.Cancel = s.Term.Resume(context.Background())
+}
+
+func createShellFunctions() {''')
+elif which=='resume-localterm':
+    sub('extensions/io.go','''				defer func() { s.Context, s.Cancel = s.Term.Resume(context.Background()) }()''','''				term := s.Term
+				defer func() { s.Context, s.Cancel = term.Resume(context.Background()) }()''')
